@@ -217,10 +217,23 @@ def faults(ctx, prop, mod):
     combos, evals = set(), 0
     from scripts import SCRIPTS
     sf = os.path.join(ctx.tmp, 'fault-scripts.ndjson')
+    # every script under both error handlers and with / without the lock module (lock saves the
+    # user object other handlers mutated, which can mask a missing save)
+    variants = []
+    for s0 in SCRIPTS.get('C18', []):
+        for ew in (False, True):
+            for lk in (False, True):
+                v = json.loads(json.dumps(s0))
+                mods = [m for m in v['cfg']['modules'] if m != 'lock']
+                if lk:
+                    mods.insert(1, 'lock')
+                v['cfg']['modules'], v['cfg']['errWrites'] = mods, ew
+                v['name'] += ':ew=%d:lock=%d' % (ew, lk)
+                variants.append(v)
     with open(sf, 'w') as f:
-        for s0 in SCRIPTS.get('C18', []):
+        for s0 in variants:
             f.write(json.dumps(s0) + '\n')
-    ctx.cov['scripted_scenarios'] = len(SCRIPTS.get('C18', []))
+    ctx.cov['scripted_scenarios'] = len(variants)
     for fam, n, depth, p, ex in [('scripted', 0, 0, 0, True)] + plan:
         tf = os.path.join(ctx.tmp, 'faults-%s.ndjson' % fam)
         cmd = [ctx.bin, 'faults', '-family', fam, '-n', str(n), '-depth', str(depth), '-p', str(p), '-seed', str(ctx.seed), '-out', tf]
